@@ -489,6 +489,10 @@ def parse_sanitizer(report, gen_source):
     if not frame:
         fm = re.search(r'#0 0x[0-9a-f]+ in (\S+)', report)
         frame = fm.group(1) if fm else ''
+    # per-type functions are named after the type: keep only their role
+    m = re.match(r'.*_(encode_inner|decode_inner|encode|decode)$', frame)
+    if m:
+        frame = '<type>_' + m.group(1)
     return kind, frame
 
 
